@@ -102,6 +102,10 @@ func mergeYaml(e any, o any, p tree.Path) (any, error) {
 }
 
 func mergeMappings(mapping map[string]any, other map[string]any, p tree.Path) (map[string]any, error) {
+	if mapping == nil {
+		// a nil map cannot be assigned to
+		mapping = make(map[string]any, len(other))
+	}
 	for k, v := range other {
 		e, ok := mapping[k]
 		if !ok || strings.HasPrefix(k, "x-") {
@@ -158,18 +162,29 @@ func sameScalar(d, o any) bool {
 }
 
 func mergeBuild(c any, o any, path tree.Path) (any, error) {
-	toBuild := func(c any) map[string]any {
+	toBuild := func(c any) (map[string]any, error) {
 		switch v := c.(type) {
+		case nil:
+			// an empty (null) build section is an empty mapping
+			return map[string]any{}, nil
 		case string:
 			return map[string]any{
 				"context": v,
-			}
+			}, nil
 		case map[string]any:
-			return v
+			return v, nil
 		}
-		return nil
+		return nil, fmt.Errorf("cannot override %s", path)
 	}
-	return mergeMappings(toBuild(c), toBuild(o), path)
+	right, err := toBuild(c)
+	if err != nil {
+		return nil, err
+	}
+	left, err := toBuild(o)
+	if err != nil {
+		return nil, err
+	}
+	return mergeMappings(right, left, path)
 }
 
 func mergeDependsOn(c any, o any, path tree.Path) (any, error) {
